@@ -699,6 +699,28 @@ func emit(v any) {
 	outMu.Unlock()
 }
 
+// emitMismatch prints a disagreement; after mismatchCap of them only their number is kept (a broken tree disagrees on
+// tens of thousands of cases, each line carrying the token dump)
+const mismatchCap = 400
+
+var mismatches, suppressed int64
+
+func emitMismatch(o map[string]any) {
+	if _, infra := o["infra"]; !infra {
+		outMu.Lock()
+		mismatches++
+		over := mismatches > mismatchCap
+		if over {
+			suppressed++
+		}
+		outMu.Unlock()
+		if over {
+			return
+		}
+	}
+	emit(o)
+}
+
 func hx(b []byte) string { return hex.EncodeToString(b) }
 
 func show(b []byte) string {
@@ -1015,11 +1037,11 @@ func (r *runner) e2eAsk(form string, st *stats) {
 			}
 		}
 		if err != nil {
-			emit(map[string]any{"n": q.n, "what": "e2e: search failed: " + err.Error(), "query": show([]byte(q.q)), "form": form, "style": q.style, "kind": q.kind, "value": q.value})
+			emitMismatch(map[string]any{"n": q.n, "what": "e2e: search failed: " + err.Error(), "query": show([]byte(q.q)), "form": form, "style": q.style, "kind": q.kind, "value": q.value})
 			continue
 		}
 		if len(resp.IdSources) != 1 {
-			emit(map[string]any{"n": q.n, "what": fmt.Sprintf("e2e: own-content query returns %d documents instead of 1", len(resp.IdSources)),
+			emitMismatch(map[string]any{"n": q.n, "what": fmt.Sprintf("e2e: own-content query returns %d documents instead of 1", len(resp.IdSources)),
 				"query": show([]byte(q.q)), "form": form, "style": q.style, "kind": q.kind, "value": q.value})
 		}
 	}
@@ -1069,7 +1091,7 @@ func main() {
 		}
 		emit(map[string]any{"begin": idx})
 		for _, o := range r.runCase(idx, &c, total) {
-			emit(o)
+			emitMismatch(o)
 		}
 		emit(map[string]any{"end": idx})
 	}
@@ -1119,7 +1141,7 @@ func main() {
 							os.Exit(3)
 						}
 						for _, o := range r.runCase(order[k][i], &c, st) {
-							emit(o)
+							emitMismatch(o)
 						}
 					}
 					mu.Lock()
@@ -1145,7 +1167,8 @@ func main() {
 	}
 	summary := map[string]any{"summary": true, "cases": n, "evals": total.evals, "nontrivial": total.nontrivial, "corpora": 0,
 		"tokdiff": total.tokdiff, "mapdiff": total.mapdiff, "exempt_probes": total.exemptProbes, "exempt_found": total.exemptFound,
-		"e2e_docs": total.e2e, "e2e_queries": total.e2eQueries, "styles": total.styles, "reps": *reps}
+		"e2e_docs": total.e2e, "e2e_queries": total.e2eQueries, "styles": total.styles, "reps": *reps,
+		"mismatches": mismatches, "mismatches_not_printed": suppressed}
 	if *summaryPath != "" {
 		// one line per driver process: the check feeds large case files in chunks
 		b, _ := json.Marshal(summary)
